@@ -37,7 +37,8 @@ class Snowflake:
         | CLUSTER BY pid
         """
         p_list = remove_par(list(p))
-        p[0] = {"cluster_by": p_list[-1]}
+        # without parentheses the commas of the column list arrive as items
+        p[0] = {"cluster_by": [item for item in p_list[-1] if item != ","]}
 
     def p_multi_id_or_string(self, p: List) -> None:
         """multi_id_or_string : id_or_string
